@@ -5,4 +5,9 @@ import engcommon
 ID = "C04"
 HARNESS = "c04_harness"
 COQ_TARGETS = engcommon.COQ_BASE + ["Props/C04.vo"]
-DEV = True    # until Props/C04.v exists
+
+MANIFEST = {'technique': 'Rocq proofs: Parse returns node xor error; Sentence success = exactly one tree spanning the whole file and (monotone fragment) iff some derivation consumes the whole input; differential run of parsley.Parse with and without Sentence', 'text': 'Props/C04.v: C04_xor, C04_sentence_sound (+_all, _spells, _single), C04_sentence_complete_partial (monotone fragment). The check runs parsley.Parse with a Sentence root and with the bare root on every generated grammar/input, requires exactly one of node/error, checks the span of a success, and (monotone grammars) success iff the least-fixpoint end set contains end of input.', 'note': "Trusted: as C01. Evaluate's panic-freedom for trees with complete interpreters is covered by C13 (tree passes) and C16.", 'ref': 'DESIGN.md section 6, C04'}
+RULE = ("all one-rule monotone grammars up to a node bound x all inputs over {a,b} up to a length bound (enumerated), plus random "
+        "grammars over all combinators, named and unnamed; non-trivial = non-empty root result or failing Sentence parse; "
+        "distinct = distinct case text")
+CORRESPONDENCE = "engine model (coq/Engine.v, eng_expected) = implementation on the projection of this property"
